@@ -92,7 +92,10 @@ def get_parser_by_name(docformat: str, obj: Optional['Documentable'] = None) -> 
         or it could be that the docformat name do not match any know L{pydoctor.epydoc.markup} submodules.
     """
     mod = import_module(f'pydoctor.epydoc.markup.{docformat}')
-    # We can safely ignore this mypy warning, since we can be sure the 'get_parser' function exist and is "correct".
+    if not hasattr(mod, 'get_parser'):
+        # The name designates a module of this package that is not a parser (i.e. '_types').
+        raise ImportError(f'{mod.__name__!r} is not a docstring parser module')
+    # We can safely ignore this mypy warning, since the 'get_parser' function exist and is "correct".
     return mod.get_parser(obj) # type:ignore[no-any-return]
 
 def processtypes(parse:ParserFunction) -> ParserFunction:
